@@ -18,11 +18,22 @@ values, and the following laws are judged (reference model: mc/ref/c14_model.py)
   repeat-after-result-mutated   ... also after the results of the earlier applications were modified in
                           place (as later pipeline elements do to contexts)
   raised / shape          no exception; the result is a (data, context dictionary) pair
+
+Group "containers": the same laws over every way a value can carry (or only seem to carry) a context: the
+pair is a tuple or an instance of a tuple subclass, the context a dict or an instance of a dict subclass
+(also below the top level), the data part is falsy, looks like a pair or like a context itself; and
+values that are NOT pairs by the convention of lena.flow (a list [data, context], tuples of other
+lengths, a pair whose second item is no dictionary), which are data as a whole.
+Group "functions": variables made by lena.variables.abs(var, latex_name=...) stand in the chains
+(numeric getters x -> a*x + b), with the additional law
+  argument-unchanged      building abs(var) leaves var as it was
 """
+import collections
 import copy
 import itertools
 import json
 
+import lena.context
 import lena.core
 import lena.variables
 
@@ -36,16 +47,21 @@ DESIGN_REF = "DESIGN.md section 5, C14"
 RULE = ("every chain (ordered selection of distinct typed variables, every assignment of attribute "
         "profiles), every bracketing of a chain into nested Compose variables, every Combine tuple and "
         "every chain over a mixed alphabet of plain / composed / combined variables is built fresh and "
-        "applied as Sequence and as Compose to every form of input value; one case = one (items, Compose "
+        "applied as Sequence and as Compose to every form of input value; group containers: a fixed list "
+        "of chains / Compose / Combine items x every (container of the pair, form of the context, kind of "
+        "data) of the stated lists; group functions: every chain of 1..3 (thorough 4) variables of which at "
+        "least one was made by abs (of a plain variable, of a Compose, of an abs variable), and Combine "
+        "tuples of such; one case = one (items, Compose "
         "keywords, value form); a case is non-trivial when context.variable has to keep at least two "
         "typed descriptions apart (chain including the pre-existing variable has >= 2 types) or a "
         "Combine has >= 2 items; cases are keyed by their JSON text, so they are counted once")
 ASSUMPTIONS = [
     "variables in a chain have pairwise distinct non-empty types, also distinct from the types of a "
     "pre-existing context.variable (untyped variables inside a chain lose data by documented design)",
-    "getters are x -> (i, x) (non-commutative, so order is visible); the data value is the integer 7",
+    "getters are x -> (i, x) (non-commutative, so order is visible); the data value is the integer 7 "
+    "(group containers: also None, 0, (), a pair-like tuple, a context-like dictionary)",
     "extra attributes come from four profiles: none; falsy scalars, a string and a list; a nested "
-    "dict/list structure; one string. Attribute names never equal a type name or name/type/compose/"
+    "dict/list structure; one string (group functions: a fifth with unit, latex_name and range). Attribute names never equal a type name or name/type/compose/"
     "dim/combine",
     "input values: bare data, empty context, unrelated context, pre-existing untyped, typed, composed "
     "and empty context.variable; the pre-existing variable has the documented shape (its attributes "
@@ -55,6 +71,17 @@ ASSUMPTIONS = [
     "a chain of fewer than two types may or may not have a compose key",
     "Compose is given no type keyword; Combine keywords are name, type and range",
     "equality distinguishes list from tuple and bool from int",
+    "group containers: pairs are tuple, a namedtuple, another tuple subclass; contexts are dict, "
+    "lena.context.Context, OrderedDict, defaultdict, another dict subclass, OrderedDict at every level; "
+    "the class of the returned context is not judged (it is compared as a plain dictionary); objects "
+    "that are not pairs by the convention of lena.flow.get_data_context (list pair, 3-tuple, 1-tuple, "
+    "(context, data), second item a list or None) are data; Mapping types that do not derive from dict "
+    "are not in the alphabet (the convention does not speak about them)",
+    "group functions: getters are x -> a*x + b with integer a, b; abs is always given a non-empty "
+    "latex_name (and no name or a non-empty name): abs without latex_name and Cm are NOT in the "
+    "alphabet - on the unchanged tree they raise LenaAttributeError for every argument (they call "
+    "Variable.get, which does not exist; the module documents itself as not to be relied on, its tests "
+    "are disabled); abs of a variable is expected to keep its type and other attributes",
 ]
 NONTRIVIAL_FLOOR = {"quick": 20000, "thorough": 500000}
 BUDGET_S = {"quick": 240, "thorough": 3000}
@@ -64,13 +91,25 @@ LEVEL_TEXT = ("bounded exhaustive exploration: all chains of 1..4 (thorough: 1..
               "chains into nested Compose variables, all Combine tuples of 1..4 variables with every "
               "keyword combination, and chains over a mixed alphabet of plain, composed and combined "
               "variables, each applied three times as Sequence and as Compose to eight forms of input "
-              "value (with and without context, with untyped / typed / composed context.variable) on "
+              "value (with and without context, with untyped / typed / composed context.variable), a "
+              "fixed list of chains over every container of a (data, context) pair (tuple and dict "
+              "subclasses, look-alikes that are plain data, data that look like pairs or contexts), and "
+              "chains with variables made by lena.variables.abs (latex_name given), on "
               "the real lena.variables code and judged by an independent description model")
 LEVEL_NOTE = ("holds for the enumerated alphabet only: pairwise distinct non-empty types, four attribute "
-              "profiles, one data value; lena.variables.functions (abs, Cm) is not in the alphabet")
+              "profiles, one data value outside the group containers (six kinds of data there); "
+              "of lena.variables.functions only abs(var, latex_name=given) of plain, composed and abs "
+              "variables, chains of at most 3 (thorough 4) items; abs without latex_name and Cm raise "
+              "for every argument on the unchanged tree and are left out")
 TECHNIQUE = ("exhaustive enumeration of variable chains, bracketings and Combine tuples on the real code; "
              "reference model of getter composition and of the variable description; differential "
-             "Compose vs Sequence vs flat chain; before/after snapshots of every var_context")
+             "Compose vs Sequence vs flat chain; before/after snapshots of every var_context "
+             "(also around the construction of abs variables)")
+
+
+CONT_FORMS_QUICK = ("empty", "plain", "typed-variable", "composed-variable", "as-first")
+CONT_FORMS_ALL = ("empty", "plain", "untyped-variable", "typed-variable", "composed-variable",
+                  "empty-variable", "as-first")
 
 
 def _dom(tier):
@@ -78,11 +117,15 @@ def _dom(tier):
         return dict(pool=5, chain=5, profiles=(0, 1, 2, 3), profiles_at={5: 3}, nest=5, combine=4, comb_pool=5,
                     cn_len=4, mixed=4, kw_chain=4,
                     parts={1: 1, 2: 1, 3: 2, 4: 24, 5: 40}, nest_parts={2: 1, 3: 1, 4: 4, 5: 24},
-                    comb_parts=24, cn_parts=4, mixed_parts=8)
+                    comb_parts=24, cn_parts=4, mixed_parts=8,
+                    cont_chain=4, cont_nest=3, cont_combine=3, cont_forms=CONT_FORMS_ALL, cont_parts=16,
+                    fn_chain=4, fn_parts=16)
     return dict(pool=4, chain=4, profiles=(0, 1, 2), profiles_at={}, nest=4, combine=4, comb_pool=4,
                 cn_len=3, mixed=3, kw_chain=3,
                 parts={1: 1, 2: 1, 3: 2, 4: 8}, nest_parts={2: 1, 3: 1, 4: 4},
-                comb_parts=3, cn_parts=2, mixed_parts=2)
+                comb_parts=3, cn_parts=4, mixed_parts=2,
+                cont_chain=3, cont_nest=2, cont_combine=2, cont_forms=CONT_FORMS_QUICK, cont_parts=4,
+                fn_chain=3, fn_parts=4)
 
 
 def describe(tier):
@@ -93,9 +136,18 @@ def describe(tier):
             "1..%d distinct variables x 12 keyword combinations (thorough: also every profile assignment "
             "with all three keywords); Combine of 1..%d items from {plain, repeated, Compose, Combine, typed Combine}; chains "
             "of 2..%d items over an alphabet with Compose and typed Combine items; 8 value forms; every "
-            "case applied 3 times on each of the Sequence and the Compose side"
+            "case applied 3 times on each of the Sequence and the Compose side; containers: chains of "
+            "1..%d in every order, Compose of chains of 2..%d, Combine of 1..%d (2 keyword sets), 6 "
+            "composite items x (%d pair containers x %d context forms + %d look-alikes that are data x 2 "
+            "forms + %d kinds of data x 4 (form, container)); functions: abs(v, 3 keyword sets) and "
+            "abs(abs(v)) of every variable x 5 profiles alone, every chain of 2 distinct types with 4 "
+            "variants per position (plain, abs, abs with name, abs(abs)) and at least one function, chains "
+            "of 3..%d with one variant per position and mask, abs of a Compose of two alone and next to a "
+            "third variable, Combine of two with function variables"
             % (d["pool"], d["chain"], len(d["profiles"]), d["nest"], d["kw_chain"], d["combine"],
-               d["cn_len"], d["mixed"]))
+               d["cn_len"], d["mixed"], d["cont_chain"], d["cont_nest"], d["cont_combine"],
+               len(PAIR_CONTAINERS), len(d["cont_forms"]), len(BARE_CONTAINERS), len(M.DATA_KINDS) - 1,
+               d["fn_chain"]))
 
 
 # -- enumeration -----------------------------------------------------------------------------------
@@ -147,6 +199,12 @@ def shards(tier):
         out.append({"kind": "combine-nested", "part": j, "of": d["cn_parts"], "bound": "length<=4"})
     for j in range(d["mixed_parts"]):
         out.append({"kind": "mixed", "part": j, "of": d["mixed_parts"], "bound": "length<=4"})
+    for j in range(d["cont_parts"]):
+        out.append({"kind": "containers", "part": j, "of": d["cont_parts"],
+                    "bound": "length<=%d" % d["cont_chain"]})
+    for j in range(d["fn_parts"]):
+        out.append({"kind": "functions", "part": j, "of": d["fn_parts"],
+                    "bound": "length<=%d" % d["fn_chain"]})
     order = []
     for s in out:
         if s["bound"] not in order:
@@ -274,8 +332,167 @@ def cases_of(p, tier):
                 items = [copy.deepcopy(alpha[a]) for a in sel]
                 for form in forms:
                     yield {"group": "mixed", "items": items, "compose_kw": None, "value": form}
+    elif kind == "containers":
+        vspecs = container_values(d["cont_forms"])
+        for idx, items in enumerate(_container_items(d, profiles)):
+            if idx % p["of"] != p["part"]:
+                continue
+            for vs in vspecs:
+                yield {"group": "containers", "items": items, "compose_kw": None, "value": vs}
+    elif kind == "functions":
+        for idx, items in enumerate(_function_items(d)):
+            if idx % p["of"] != p["part"]:
+                continue
+            for form in forms:
+                yield {"group": "functions", "items": items, "compose_kw": None, "value": form}
     else:
         raise ValueError(kind)
+
+
+def _container_items(d, profiles):
+    """The item lists of the group containers (a fixed, small selection of every kind of item)."""
+    out = []
+    for n in range(1, d["cont_chain"] + 1):
+        for perm in itertools.permutations(range(d["pool"]), n):
+            out.append([["V", i, _cyclic(i + n, profiles)] for i in perm])
+    for n in range(2, d["cont_nest"] + 1):
+        for perm in itertools.permutations(range(d["pool"]), n):
+            leaf = [["V", i, _cyclic(i, profiles)] for i in perm]
+            out.append([["Compose", leaf, {}]])
+            if n > 2:
+                out.append([leaf[0], ["Compose", leaf[1:], {}]])
+    for k in range(1, d["cont_combine"] + 1):
+        for perm in itertools.permutations(range(d["comb_pool"]), k):
+            for kw in ({}, {"name": "cn", "type": "tc"}):
+                out.append([["Combine", [["V", i, _cyclic(i, profiles)] for i in perm], dict(kw)]])
+    for spec in _mixed_alphabet(profiles)[4:]:
+        out.append([copy.deepcopy(spec)])
+    return out
+
+
+def container_values(forms):
+    """The value descriptions of the group containers: {"form", "container", "data"}."""
+    out = []
+    for cont in PAIR_CONTAINERS:
+        for form in forms:
+            out.append({"form": form, "container": cont, "data": "int"})
+    for cont in BARE_CONTAINERS:
+        for form in ("empty", "typed-variable"):
+            out.append({"form": form, "container": cont, "data": "int"})
+    for dk in M.DATA_KINDS:
+        if dk == "int":
+            continue
+        for form, cont in (("bare", "plain"), ("plain", "plain"), ("typed-variable", "Context"),
+                           ("composed-variable", "namedtuple")):
+            out.append({"form": form, "container": cont, "data": dk})
+    return out
+
+
+FN_ABS_KWS = ({"latex_name": "L"}, {"name": "an", "latex_name": "L"}, {"name": "abs", "latex_name": "|v|"})
+
+
+def _fn_variants(i, k):
+    """Plain variable number i and three variables made from it by abs (k varies the choices)."""
+    n_prof = len(M.PROFILES)
+    pc, p2 = (i + k) % n_prof, (i + 2 * k + 1) % n_prof
+    kwa, kwb = FN_ABS_KWS[0], FN_ABS_KWS[1 + (i + k) % 2]
+    return [["N", i, pc],
+            ["Abs", ["N", i, pc], dict(kwa)],
+            ["Abs", ["N", i, p2], dict(kwb)],
+            ["Abs", ["Abs", ["N", i, pc], dict(kwb)], dict(kwa)]]
+
+
+def _function_items(d):
+    out = []
+    pool = range(d["pool"])
+    n_prof = len(M.PROFILES)
+    for i in pool:                          # one function variable alone: everything
+        for q in range(n_prof):
+            for kw in FN_ABS_KWS:
+                out.append([["Abs", ["N", i, q], dict(kw)]])
+            out.append([["Abs", ["Abs", ["N", i, q], dict(FN_ABS_KWS[1])], dict(FN_ABS_KWS[0])]])
+    for perm in itertools.permutations(pool, 2):        # chains of 2: every pair of variants
+        va, vb = _fn_variants(perm[0], 0), _fn_variants(perm[1], 1)
+        for a in range(len(va)):
+            for b in range(len(vb)):
+                if a or b:
+                    out.append([copy.deepcopy(va[a]), copy.deepcopy(vb[b])])
+    for n in range(3, d["fn_chain"] + 1):               # longer chains: one variant per position and mask
+        for perm in itertools.permutations(pool, n):
+            for mask in range(1, 1 << n):
+                items = []
+                for k, i in enumerate(perm):
+                    v = _fn_variants(i, k)
+                    items.append(copy.deepcopy(v[1 + (i + k + mask) % 3] if mask >> k & 1 else v[0]))
+                out.append(items)
+    for i, j in itertools.permutations(pool, 2):        # abs of a composed variable
+        inner = ["Compose", [["N", i, (i + j) % n_prof], ["N", j, (i + 2 * j) % n_prof]], {}]
+        f = ["Abs", inner, dict(FN_ABS_KWS[(i + j) % 3])]
+        out.append([copy.deepcopy(f)])
+        for k in pool:
+            if k not in (i, j):
+                out.append([["N", k, k % n_prof], copy.deepcopy(f)])
+                out.append([copy.deepcopy(f), ["N", k, k % n_prof]])
+    for i, j in itertools.permutations(pool, 2):        # tuples with function variables
+        va, vb = _fn_variants(i, 2), _fn_variants(j, 0)
+        for a, b, kw in ((1, 2, {}), (3, 0, {"type": "tc", "name": "cn"}), (0, 1, {"range": [0, 1]})):
+            out.append([["Combine", [copy.deepcopy(va[a]), copy.deepcopy(vb[b])], dict(kw)]])
+    return out
+
+
+# -- containers of a value ------------------------------------------------------------------------
+
+class _DictSub(dict):
+    pass
+
+
+class _Pair(tuple):
+    pass
+
+
+_Event = collections.namedtuple("_Event", ["data", "context"])
+
+
+def _odict_deep(x):
+    if isinstance(x, dict):
+        return collections.OrderedDict((k, _odict_deep(v)) for k, v in x.items())
+    if isinstance(x, list):
+        return [_odict_deep(v) for v in x]
+    return x
+
+
+# (data, context) pairs by the convention of lena.flow.get_data_context
+PAIR_CONTAINERS = {
+    "Context": lambda d, c: (d, lena.context.Context(c)),
+    "OrderedDict": lambda d, c: (d, collections.OrderedDict(c)),
+    "defaultdict": lambda d, c: (d, collections.defaultdict(dict, c)),
+    "dict-subclass": lambda d, c: (d, _DictSub(c)),
+    "OrderedDict-at-every-level": lambda d, c: (d, _odict_deep(c)),
+    "namedtuple": lambda d, c: _Event(d, c),
+    "tuple-subclass": lambda d, c: _Pair((d, c)),
+    "namedtuple+Context": lambda d, c: _Event(d, lena.context.Context(c)),
+}
+# not pairs by that convention: data as a whole
+BARE_CONTAINERS = {
+    "list-pair": lambda d, c: [d, c],
+    "3-tuple": lambda d, c: (d, c, 0),
+    "1-tuple": lambda d, c: ((d, c),),
+    "context-first": lambda d, c: (c, d),
+    "second-is-list": lambda d, c: (d, [c]),
+    "second-is-None": lambda d, c: (d, None),
+}
+CONTAINER_CLASS = {"plain": "plain", "Context": "dict-subclass", "OrderedDict": "dict-subclass",
+                   "defaultdict": "dict-subclass", "dict-subclass": "dict-subclass",
+                   "OrderedDict-at-every-level": "dict-subclass", "namedtuple": "tuple-subclass",
+                   "tuple-subclass": "tuple-subclass", "namedtuple+Context": "tuple-and-dict-subclass"}
+
+
+def contain(data, context, container):
+    if container == "plain":
+        return (data, context)
+    if container in PAIR_CONTAINERS:
+        return PAIR_CONTAINERS[container](data, context)
+    return BARE_CONTAINERS[container](data, context)
 
 
 # -- real objects ----------------------------------------------------------------------------------
@@ -287,6 +504,18 @@ def build(spec, nodes, path):
         name, typ, attrs = M.leaf_fields(spec)
         i = spec[1]
         var = lena.variables.Variable(name, getter=lambda x, i=i: (i, x), type=typ, **attrs)
+    elif kind == "N":
+        name, typ, attrs = M.leaf_fields(spec)
+        a, b = M.AFFINE[spec[1]]
+        var = lena.variables.Variable(name, getter=lambda x, a=a, b=b: a * x + b, type=typ, **attrs)
+    elif kind == "Abs":
+        arg = build(spec[1], nodes, path + [0])
+        mark = len(nodes)
+        before = snapshot(nodes)
+        var = lena.variables.abs(arg, **copy.deepcopy(spec[2]))
+        after = snapshot(nodes[:mark])
+        if before != after and hasattr(nodes, "build_changes"):
+            nodes.build_changes.append((kind, changed_kinds(before, after)))
     else:
         subs = [build(s, nodes, path + [k]) for k, s in enumerate(spec[1])]
         kw = copy.deepcopy(spec[2]) if len(spec) > 2 and spec[2] else {}
@@ -294,6 +523,14 @@ def build(spec, nodes, path):
         var = cls(*subs, **kw)
     nodes.append((kind, path, var))
     return var
+
+
+class Nodes(list):
+    """The variables built for one side, and what the construction of a function variable changed."""
+
+    def __init__(self):
+        list.__init__(self)
+        self.build_changes = []
 
 
 def canon(x):
@@ -348,7 +585,7 @@ class Side(object):
 
     def __init__(self, side, items, kw):
         self.side = side
-        self.nodes = []
+        self.nodes = Nodes()
         objs = [build(s, self.nodes, [k]) for k, s in enumerate(items)]
         if side == "compose":
             self.top = lena.variables.Compose(*objs, **copy.deepcopy(kw or {}))
@@ -363,6 +600,13 @@ class Side(object):
         if len(out) != 1:
             raise _Shape("Sequence yielded %d values for one input" % len(out))
         return out[0]
+
+
+def _norm(r):
+    """The result with its context as a plain dictionary (the class of the context is not judged)."""
+    if _wellformed(r) and (type(r) is not tuple or type(r[1]) is not dict):
+        return (r[0], dict(r[1]))
+    return r
 
 
 class _Shape(Exception):
@@ -402,20 +646,48 @@ def _short(r):
         return repr(r)
 
 
-def _value(form, items):
+def _vspec(vs):
+    """(form, container, kind of data) of the value description of a case."""
+    if isinstance(vs, dict):
+        return vs["form"], vs.get("container", "plain"), vs.get("data", "int")
+    return vs, "plain", "int"
+
+
+def _value(vs, items):
     """A fresh input value; for "as-first" one whose context.variable is what the first variable of the
     chain writes (as if it had been applied upstream already)."""
+    form, container, dk = _vspec(vs)
+    data = M.data_value(dk)
+    if form == "bare":
+        return data
     if form != "as-first":
-        return M.value(form)
-    first = build(items[0], [], [])
-    return (M.DATA, {"a": {"b": [1, 2]}, "z": 0, "variable": copy.deepcopy(first.var_context)})
+        context = M.value(form)[1]
+    else:
+        first = build(items[0], [], [])
+        context = {"a": {"b": [1, 2]}, "z": 0, "variable": copy.deepcopy(first.var_context)}
+    return contain(data, context, container)
 
 
 def judge(res, case):
-    items, kw, form = case["items"], case.get("compose_kw"), case["value"]
+    items, kw, vs = case["items"], case.get("compose_kw"), case["value"]
+    form, container, dk = _vspec(vs)
     group = case.get("group", "replay")
     descs = [M.describe(s) for s in items]
-    x0, c0 = M.split_value(_value(form, items))
+    fkinds = M.function_kinds(items)
+    if fkinds:
+        # the variables of lena.variables.functions must exist before anything can be asked of them
+        for s in items:
+            try:
+                build(s, Nodes(), [])
+            except Exception as e:
+                res.violation(case, "raised %s: %s" % (type(e).__name__, str(e)[:200]), "a variable",
+                              {"group": group, "law": "raised", "stage": "build", "exc": type(e).__name__,
+                               "item": M.skeleton(s)})
+                res.case(nontrivial=False, outcome=("build", type(e).__name__, M.skeleton(s)),
+                         key=json.dumps(case, sort_keys=True))
+                res.count("cases_" + group)
+                return False
+    x0, c0 = M.split_value(_value(vs, items))
     pre = c0.get("variable")
     frame0 = {k: v for k, v in c0.items() if k != "variable"}
     exp_data = M.expected_data(items, x0)
@@ -425,6 +697,11 @@ def judge(res, case):
     n_combine = max([len(s[1]) for s in items if s[0] == "Combine"] or [0])
     nontrivial = n_types >= 2 or n_combine >= 2
     base = {"group": group, "pre": PRE_CLASS[form]}
+    if container != "plain" or dk != "int":
+        base["value"] = ("not-a-pair" if container in BARE_CONTAINERS else CONTAINER_CLASS[container]) \
+            + ("" if dk == "int" else "/data:" + dk)
+    if fkinds:
+        base["functions"] = "+".join(fkinds)
 
     sides = ["sequence", "compose"]
     flat_items = None
@@ -441,7 +718,8 @@ def judge(res, case):
             s = Side(side, its, kw if side == "compose" else None)
             before = snapshot(s.nodes)
             stage = "apply"
-            r1 = s.apply(_value(form, items))
+            raw1 = s.apply(_value(vs, items))
+            r1 = _norm(raw1)
             if not _wellformed(r1):
                 res.violation(case, _short(r1), "(data, {'variable': {...}, ...})",
                               dict(cause, law="shape"))
@@ -449,14 +727,15 @@ def judge(res, case):
             keep1 = copy.deepcopy(r1)
             after1 = snapshot(s.nodes)
             stage = "apply-again"
-            r2 = s.apply(_value(form, items))
+            raw2 = s.apply(_value(vs, items))
+            r2 = _norm(raw2)
             after2 = snapshot(s.nodes)
             repeat_ok = _wellformed(r2) and M.same(r1, r2)
             keep2 = None if repeat_ok else copy.deepcopy(r2)
-            scribble(r1)
-            scribble(r2)
+            scribble(raw1)
+            scribble(raw2)
             stage = "apply-after-result-mutated"
-            r3 = s.apply(_value(form, items))
+            r3 = _norm(s.apply(_value(vs, items)))
             after3 = snapshot(s.nodes)
         except Exception as e:      # the statement promises a result for every input of the domain
             res.violation(case, "raised %s: %s" % (type(e).__name__, str(e)[:200]), "a result",
@@ -464,6 +743,10 @@ def judge(res, case):
             continue
         first[side] = keep1
         data, ctx = keep1
+        for fkind, changed in s.nodes.build_changes:
+            res.violation(case, "changed: %s" % changed, "the argument variable is left as it was",
+                          {"group": group, "law": "argument-unchanged", "function": fkind,
+                           "nodes": changed})
         # data
         if not M.same(data, exp_data):
             res.violation(case, _short(data), _short(exp_data), dict(cause, law="data"))
@@ -546,7 +829,7 @@ def _apply_chain(form, first, second, val):
 
 def check_shared_variable(res):
     import lena.variables
-    profs = M.PROFILES
+    profs = M.PROFILES[:4]
     for ta, tx in (("particle", "coordinate"), ("t.2", "x")):
         for pa in range(len(profs)):
             for pb in range(len(profs)):
@@ -585,7 +868,7 @@ def run_shard(p, tier):
     limit = 2
     for case in cases_of(p, tier):
         judge(res, case)
-        if len(res.samples) < limit and case["value"] == "typed-variable":
+        if len(res.samples) < limit and _vspec(case["value"])[0] == "typed-variable":
             res.sample(case, limit)
     if not res.samples:
         for case in cases_of(p, tier):
